@@ -18,11 +18,13 @@ try:
     rc, out = sh("git -C /repo worktree add -q %s HEAD" % wt); assert rc == 0, out
     res["repo_head"] = sh("git -C /repo rev-parse --short HEAD")[1].strip()
     shutil.copy(os.path.join(seed, "demo_test.go") if os.path.exists(os.path.join(seed, "demo_test.go")) else os.path.join(seed, "demo.go"), os.path.join(wt, dest))
-    rc, out = sh("go test -count=1 -run '%s' ." % pat, os.path.join(wt, os.path.dirname(dest)))
+    denv = env if dest.startswith("distsys/") else wsenv
+    tags = os.environ.get("DEMO_TAGS", "")
+    rc, out = sh("go test %s -count=1 -run '%s' ." % (tags, pat), os.path.join(wt, os.path.dirname(dest)), e=denv)
     res["demo_without_patch"] = "pass" if rc == 0 else "FAIL: " + out[-400:]
     rc, out = sh("git apply %s" % os.path.abspath(os.path.join(seed, "patch.diff")), wt)
     res["patch_applies"] = rc == 0 or out
-    rc, out = sh("go build ./... && go vet ./... 2>&1 | tail -3; go build ./...", os.path.join(wt, mod))
+    rc, out = sh("go build ./...", os.path.join(wt, mod), e=(env if mod == "distsys" else wsenv))
     res["builds"] = rc == 0 or out
     os.rename(os.path.join(wt, dest), os.path.join(wt, dest) + ".off")
     tests = {}
@@ -35,7 +37,7 @@ try:
         tests[d] = "pass" if rc == 0 else "FAIL: " + out[-600:]
     res["existing_tests_with_patch"] = tests
     os.rename(os.path.join(wt, dest) + ".off", os.path.join(wt, dest))
-    rc, out = sh("go test -count=1 -run '%s' ." % pat, os.path.join(wt, os.path.dirname(dest)))
+    rc, out = sh("go test %s -count=1 -run '%s' ." % (tags, pat), os.path.join(wt, os.path.dirname(dest)), e=denv)
     res["demo_with_patch"] = "fails (as required)" if rc != 0 else "PASSES (seed not demonstrated)"
 finally:
     subprocess.run("git -C /repo worktree remove --force %s" % wt, shell=True)
